@@ -474,3 +474,13 @@ def c18(res):
                    "non-trivial = accepted mutated values",
                    extra_oracles=[("oracle-c18", ["c18", "-table", os.path.join(V.GEN_OUT, "css_table.tsv"), "-keywords", os.path.join(V.GEN_OUT, "css_keywords.tsv")])],
                    thorough_runs=[("corr-regexps", ["rxcheck", "-regexps", os.path.join(V.GEN_OUT, "regexps.tsv"), "-only", "css_", "-n", "6000"])])
+
+
+@check("C04")
+def c04(res):
+    return generic(res, "C04", "Properties/C04.v", [("corr-shipped", ["shipped", "-regexps", os.path.join(V.GEN_OUT, "regexps.tsv")]), LOOP, SAN(30, 40), ATTRS("general")], None,
+                   "UGCPolicy / StrictPolicy and the Allow* helpers (builder scripts), the token loop and sanitizeAttrs",
+                   "theorems over the model's build of the regenerated builder scripts (tables = documented vocabulary, Strict emits only text, UGC tags in the vocabulary); tie: every table of the real "
+                   "UGCPolicy()/StrictPolicy() vs the model's build of the translated scripts, plus the loop / attrs correspondences; oracle: XSS families and generated documents through both policies, "
+                   "output re-tokenised and parsed with html.ParseFragment in ten containers against an independently restated vocabulary, URL schemes, pass-through of vocabulary documents",
+                   thorough_runs=[("corr-shipped", ["shipped", "-regexps", os.path.join(V.GEN_OUT, "regexps.tsv"), "-docs", "20000"]), LOOP_T, SAN(200, 80), ATTRS_T("general")])
